@@ -36,6 +36,18 @@ func VerifC11_FlagIndependence() {
 	} else {
 		zz.Assert(post.InitiatorPaused == pre.InitiatorPaused, "a responder pause/resume never changes the initiator's flag")
 	}
+	// Where the acting party is still active the action is NOT meaningless and must be applied:
+	// before and during the transfer for either party, and for the responder also while only the
+	// initiator's own side has finished (TransferFinished: the responder is still serving).
+	live := pre.Status == datatransfer.Requested || pre.Status == datatransfer.Queued || pre.Status == datatransfer.Ongoing ||
+		pre.Status == datatransfer.AwaitingAcceptance
+	if (code == datatransfer.PauseResponder || code == datatransfer.ResumeResponder) && pre.Status == datatransfer.TransferFinished {
+		live = true
+	}
+	if live {
+		zz.Assert(len(f.notes.Log) > 0, "a pause/resume by a party that is still active is applied, not ignored")
+		zz.Reach("must be applied")
+	}
 	if len(f.notes.Log) == 0 {
 		// ignored (meaningless in this status, or channel terminated): nothing may have changed
 		zz.Assert(VerifSameRecord(pre, post), "an ignored pause/resume leaves the record untouched")
